@@ -15,8 +15,8 @@ SeqsUpTo(S, n) == IF n = 0 THEN {<<>>}
                   ELSE LET R == SeqsUpTo(S, n - 1) IN R \cup {Append(s, x) : s \in {t \in R : Len(t) = n - 1}, x \in S}
 
 Scenarios ==
-     {[args |-> a, cfg |-> [NoCfg EXCEPT !.thr = c]] : a \in SeqsUpTo(ThrArgs, MaxArgs), c \in {"absent", "0", "30", "2.5", "abc"}}
-  \cup {[args |-> a, cfg |-> [NoCfg EXCEPT !.names = c]] : a \in SeqsUpTo(NamesArgs, MaxArgs), c \in {"absent", "none", "hash", "foo"}}
+     {[args |-> a, cfg |-> [NoCfg EXCEPT !.thr = c]] : a \in SeqsUpTo(ThrArgs, MaxArgs), c \in {"absent", "0", "30", "2.5"} \cup InvalidThr}
+  \cup {[args |-> a, cfg |-> [NoCfg EXCEPT !.names = c]] : a \in SeqsUpTo(NamesArgs, MaxArgs), c \in {"absent", "none", "hash"} \cup InvalidNames}
   \cup {[args |-> a, cfg |-> [NoCfg EXCEPT !.jv = c]] : a \in SeqsUpTo(JsonArgs, MaxArgs), c \in {"absent", "1", "2", "7", "x"}}
   \cup {[args |-> a, cfg |-> [NoCfg EXCEPT !.prog = c]] : a \in SeqsUpTo(ProgArgs, MaxArgs), c \in {"absent", "true", "false", "maybe"}}
   \cup {[args |-> <<t, n, p>>, cfg |-> [thr |-> "30", names |-> "hash", jv |-> "2", prog |-> "true"]] :
